@@ -12,12 +12,20 @@ Local Open Scope list_scope.
 
 (* what a raw result may be so that resolving it cannot produce a `<-` key.  [sc]: the row it will
    be resolved against is a scope copy (then a column wrapper must not be a pure `<-` path) *)
-Definition raw_ok (sc : bool) (r : raw) : Prop :=
+Fixpoint raw_ok (sc : bool) (r : raw) : Prop :=
   match r with
   | RVal v => clean v
   | RCol p => sc = true -> nav_only p = false
+  | RTuple l => (fix all (l : list raw) : Prop :=
+                   match l with [] => True | x :: r => raw_ok sc x /\ all r end) l   (* every member, at every depth *)
   | _ => True
   end.
+
+Lemma raw_ok_tuple_iff : forall sc l, raw_ok sc (RTuple l) <-> Forall (raw_ok sc) l.
+Proof.
+  intros sc l. cbn [raw_ok]. induction l as [|x r IH]; [split; auto|].
+  rewrite IH. split; [intros [? ?]; constructor; auto|intros H; inversion H; auto].
+Qed.
 
 (* a row an expression is evaluated on: a scope copy when [sc], clean otherwise *)
 Definition cur_ok (sc : bool) (cur : row) : Prop :=
@@ -26,10 +34,36 @@ Definition cur_ok (sc : bool) (cur : row) : Prop :=
 Lemma cur_ok_clean : forall sc cur, clean (VObj cur) -> cur_ok sc cur.
 Proof. intros sc cur H. split; [apply clean_nav_ok, H|intros _; exact H]. Qed.
 
+(* the member-wise walk of Unwrapped (a tuple as a value, tuples nested in it at any depth): the array it builds holds
+   the members' values, so it is clean when they are.  No row is involved: a column member was read when the
+   tuple was built. *)
+Lemma unwrapped_tuple : forall l,
+  unwrapped (RTuple l) = let! vs := mapM unwrapped l in Ok (VArr vs).
+Proof.
+  intros l. cbn [unwrapped].
+  match goal with |- bind ?a _ = bind ?b _ => assert (Heq : a = b) end.
+  { induction l as [|x r IH]; [reflexivity|]. cbn [mapM]. rewrite <- IH. reflexivity. }
+  rewrite Heq. reflexivity.
+Qed.
+
+Theorem unwrapped_clean : forall sc r v, raw_ok sc r -> unwrapped r = Ok v -> clean v.
+Proof.
+  intros sc r. induction r as [x|p|s|[f|]| |l IH] using raw_ind'; intros v Hr H;
+    try (cbn in H; first [discriminate
+                         |inversion H; subst; first [exact Hr|apply clean_str|apply clean_num|apply clean_null]]).
+  rewrite unwrapped_tuple in H.
+  destruct (mapM unwrapped l) as [vs| | |] eqn:Em; cbn [bind] in H; try discriminate.
+  inversion H; subst. apply clean_arr. apply raw_ok_tuple_iff in Hr.
+  eapply (mapM_Forall unwrapped (raw_ok sc) clean); [|exact Em].
+  rewrite Forall_forall in *. intros x Hx. split; [auto|]. intros b Hb. exact (IH x Hx b (Hr x Hx) Hb).
+Qed.
+
 Theorem value_of_clean : forall sc cur r v,
   cur_ok sc cur -> raw_ok sc r -> value_of cur r = Ok v -> clean v.
 Proof.
-  intros sc cur r v [Hn Hc] Hr H. destruct r as [x|p|s|[f|]| |l]; cbn in H; try discriminate;
+  intros sc cur r v [Hn Hc] Hr H. destruct r as [x|p|s|[f|]| |l];
+    [| | | | | |exact (unwrapped_clean sc (RTuple l) v Hr H)];
+    cbn in H; try discriminate;
     try (inversion H; subst; first [exact Hr|apply clean_str|apply clean_num|apply clean_null]).
   destruct sc.
   - destruct (reader_nav p _ _ Hn H) as [_ Hw]. apply Hw, Hr. reflexivity.
@@ -45,13 +79,14 @@ Section ExprInd.
   Variable P : expr Q -> Prop.
 
   Definition is_value_form (e : expr Q) : bool :=
-    match e with ECase _ _ | ECall _ _ _ => true | _ => false end.
+    match e with ECase _ _ | ECall _ _ _ | ETuple _ => true | _ => false end.
 
   Definition opt_P (o : option (expr Q)) : Prop := match o with Some x => P x | None => True end.
 
   Hypothesis HCase : forall whens els,
     Forall (fun cv => P (snd cv)) whens -> opt_P els -> P (ECase whens els).
   Hypothesis HCall : forall qual name args, Forall P args -> P (ECall qual name args).
+  Hypothesis HTuple : forall items, Forall P items -> P (ETuple items).
   Hypothesis HOther : forall e, is_value_form e = false -> P e.
 
   Fixpoint expr_ind12 (e : expr Q) : P e :=
@@ -71,6 +106,10 @@ Section ExprInd.
         HCall q n args
           ((fix go (l : list (expr Q)) : Forall P l :=
               match l with [] => Forall_nil _ | x :: r => Forall_cons x (expr_ind12 x) (go r) end) args)
+    | ETuple items =>
+        HTuple items
+          ((fix go (l : list (expr Q)) : Forall P l :=
+              match l with [] => Forall_nil _ | x :: r => Forall_cons x (expr_ind12 x) (go r) end) items)
     | ECol p => HOther (ECol p) eq_refl
     | ENum f => HOther (ENum f) eq_refl
     | EStr s => HOther (EStr s) eq_refl
@@ -140,7 +179,11 @@ Section EvalClean.
   Hypothesis HE : env_ok.
 
   Lemma raw_ok_weaken : forall sc r, raw_ok true r -> raw_ok sc r.
-  Proof. intros sc [ | | | | | ]; cbn; auto. Qed.
+  Proof.
+    intros sc r. induction r as [x|p|s|o| |l IH] using raw_ind'; cbn [raw_ok]; auto.
+    intros H. apply raw_ok_tuple_iff. apply (proj1 (raw_ok_tuple_iff true l)) in H.
+    rewrite Forall_forall in *. intros x Hx. exact (IH x Hx (H x Hx)).
+  Qed.
 
   Lemma col_path_soft : forall p, col_path Q E p = p.
   Proof. intros p. unfold col_path. rewrite (eo_hard HE). reflexivity. Qed.
@@ -173,6 +216,23 @@ Section EvalClean.
         inversion Eargs; subst. constructor.
         * eapply value_of_clean; [exact Hcur|exact (Hx' cur y Hcur Hx Ex)|exact Ev].
         * apply IHxs; auto.
+    - (* value tuple: every member is evaluated in value position; a column member is read off the current row *)
+      cbn [eval] in Hev. cbn [expr_ok] in Hok.
+      match type of Hev with bind ?x _ = _ => destruct x as [rs| | |] eqn:Ems; cbn [bind] in Hev; try discriminate end.
+      inversion Hev; subst r. apply raw_ok_tuple_iff.
+      clear Hev. revert rs Ems. induction items as [|x xs IHxs]; intros rs Ems.
+      + inversion Ems; constructor.
+      + apply Bool.andb_true_iff in Hok. destruct Hok as [Hx Hxs]. inversion H as [|? ? Hx' Hxs']; subst.
+        destruct (slot_form x); [discriminate|].
+        destruct (eval E cur x) as [y| | |] eqn:Ex; cbn [bind] in Ems; try discriminate.
+        assert (Hy : raw_ok sc y) by exact (Hx' cur y Hcur Hx Ex).
+        match type of Ems with bind ?z _ = _ => destruct z as [y'| | |] eqn:Ey'; cbn [bind] in Ems; try discriminate end.
+        match type of Ems with bind ?z _ = _ => destruct z as [ys| | |] eqn:Eys; cbn [bind] in Ems; try discriminate end.
+        inversion Ems; subst. constructor; [|apply IHxs; auto].
+        destruct y as [a|p|s|o| |l]; try (inversion Ey'; subst; exact Hy).
+        destruct (reader p (VObj cur)) as [w| | |] eqn:Er; cbn [bind] in Ey'; try discriminate.
+        inversion Ey'; subst. cbn [raw_ok].
+        exact (value_of_clean sc cur (RCol p) w Hcur Hy Er).
     - (* every other form *)
       destruct e; try discriminate; cbn [eval] in Hev.
       + (* column *) inversion Hev; subst. rewrite col_path_soft. cbn [expr_ok] in Hok. cbn.
@@ -241,6 +301,69 @@ Lemma select_expr_store : forall {Q} (E : env Q) cur e name rest acc x,
 Proof.
   intros Q E cur e name rest acc x H Hx. cbn [select_expr]. rewrite H. cbn [bind].
   destruct x; try reflexivity. congruence.
+Qed.
+
+(* a value tuple evaluates to a tuple none of whose members is a column wrapper: ValueTupleExpr has read it (any
+   environment; nested tuples are results of the same function) *)
+Theorem eval_tuple_shape : forall {Q} (E : env Q) cur items r,
+  eval E cur (ETuple items) = Ok r ->
+  exists l, r = RTuple l /\ List.length l = List.length items /\ Forall (fun x => forall p, x <> RCol p) l.
+Proof.
+  intros Q E cur items r H. cbn [eval] in H.
+  match type of H with bind ?x _ = _ => destruct x as [rs| | |] eqn:Ems; cbn [bind] in H; try discriminate end.
+  inversion H; subst r. clear H. exists rs. split; [reflexivity|].
+  revert rs Ems. induction items as [|x xs IH]; intros rs Ems.
+  - inversion Ems; subst. split; [reflexivity|constructor].
+  - destruct (slot_form x); [discriminate|].
+    destruct (eval E cur x) as [y| | |]; cbn [bind] in Ems; try discriminate.
+    match type of Ems with bind ?z _ = _ => destruct z as [y'| | |] eqn:Ey'; cbn [bind] in Ems; try discriminate end.
+    match type of Ems with bind ?z _ = _ => destruct z as [ys| | |] eqn:Eys; cbn [bind] in Ems; try discriminate end.
+    inversion Ems; subst. destruct (IH ys eq_refl) as [Hlen Hall].
+    split; [cbn [List.length]; rewrite Hlen; reflexivity|]. constructor; [|exact Hall].
+    destruct y as [a|p|s|o| |l]; try (inversion Ey'; subst; intros p0; discriminate).
+    destruct (reader p (VObj cur)); cbn [bind] in Ey'; try discriminate. inversion Ey'; subst. intros p0; discriminate.
+Qed.
+
+(* the value of a tuple: the array of its members' values, member by member and in order, each the
+   recursively unwrapped member (no row is consulted) *)
+Theorem value_of_tuple : forall cur l,
+  value_of cur (RTuple l) = let! vs := mapM unwrapped l in Ok (VArr vs).
+Proof. intros cur l. cbn [value_of]. apply unwrapped_tuple. Qed.
+
+Lemma mapM_Forall2 : forall {A B} (f : A -> res B) l out,
+  mapM f l = Ok out -> Forall2 (fun a b => f a = Ok b) l out.
+Proof.
+  intros A B f. induction l as [|a r IH]; intros out H; cbn [mapM] in H.
+  - inversion H; constructor.
+  - destruct (f a) eqn:Ea; cbn [bind] in H; try discriminate.
+    destruct (mapM f r) eqn:Er; cbn [bind] in H; try discriminate.
+    inversion H; subst. constructor; [exact Ea|apply IH; reflexivity].
+Qed.
+
+Theorem value_of_tuple_members : forall cur l v,
+  value_of cur (RTuple l) = Ok v ->
+  exists vs, v = VArr vs /\ Forall2 (fun r w => unwrapped r = Ok w) l vs.
+Proof.
+  intros cur l v H. rewrite value_of_tuple in H.
+  destruct (mapM unwrapped l) as [vs| | |] eqn:Em; cbn [bind] in H; try discriminate.
+  inversion H; subst. exists vs. split; [reflexivity|apply mapM_Forall2, Em].
+Qed.
+
+(* what Unwrapped does with each kind of member *)
+Lemma unwrapped_members :
+  (forall v, unwrapped (RVal v) = Ok v) /\
+  (forall s, unwrapped (RNeutral s) = Ok (VStr s)) /\
+  (forall f, unwrapped (RNumPtr (Some f)) = Ok (VNum f)) /\
+  unwrapped (RNumPtr None) = Ok VNull /\
+  unwrapped ROmit = OutOfModel /\
+  (forall p, unwrapped (RCol p) = OutOfModel).
+Proof. repeat split. Qed.
+
+(* a tuple whose members are admissible, at every depth, has a clean value (any row) *)
+Theorem tuple_value_clean : forall sc cur l v,
+  Forall (raw_ok sc) l -> value_of cur (RTuple l) = Ok v -> clean v.
+Proof.
+  intros sc cur l v Hl H. apply (unwrapped_clean sc (RTuple l) v); [apply raw_ok_tuple_iff, Hl|exact H].
 Qed.
 
 (* where a member of the output object comes from *)
